@@ -68,7 +68,7 @@ func caseLine(name string, r *histResult) string {
 	for i, e := range evs {
 		parts[i] = e.text
 	}
-	return fmt.Sprintf("%s HIST log=%s final=%s smcheck=%s | %s", name, logs, final, smc, strings.Join(parts, " ; "))
+	return fmt.Sprintf("%s HIST log=%s final=%s smcheck=%s nev=%d | %s", name, logs, final, smc, len(parts), strings.Join(parts, " ; "))
 }
 
 func gen(a vh.Args) {
@@ -98,6 +98,9 @@ func gen(a vh.Args) {
 			restart:   i%4 != 3,
 			faults:    true,
 			snapEvery: []uint64{0, 25, 60, 15}[i%4],
+			// without CheckQuorum an isolated leader keeps its role: only the
+			// heartbeat-quorum round of ReadIndex protects reads there
+			checkQuorum: i%2 == 1,
 		}
 		// about 350 operations per history in the quick tier, 2000 in thorough
 		target := 350
@@ -114,8 +117,8 @@ func gen(a vh.Args) {
 			os.Exit(1)
 		}
 		w.Printf("%s\n", caseLine(cfg.name, res))
-		info.Printf("%s clients=%d keys=%d nonvoting=%v ops=%d log=%d net(sent,dropped,delayed,delivered)=%v notes=%v smcheck=%q finalOK=%v\n",
-			cfg.name, cfg.clients, cfg.keys, cfg.nonVoting, len(res.ops), len(res.log), res.net, res.notes, res.smcheck, res.finalOK)
+		info.Printf("%s checkQuorum=%v clients=%d keys=%d nonvoting=%v ops=%d log=%d net(sent,dropped,delayed,delivered)=%v notes=%v smcheck=%q finalOK=%v\n",
+			cfg.name, cfg.checkQuorum, cfg.clients, cfg.keys, cfg.nonVoting, len(res.ops), len(res.log), res.net, res.notes, res.smcheck, res.finalOK)
 	}
 }
 
@@ -152,28 +155,46 @@ func run(a vh.Args) {
 		obs.Printf("%s FINAL %s\n", c.id, final)
 
 		// ---- monitor ----
+		var viol []string
 		if c.smcheck != "ok" {
-			st.Violation(c.id, "apply streams inconsistent: "+c.smcheck)
+			viol = append(viol, "apply streams inconsistent: "+c.smcheck)
+		}
+		if c.alien > 0 && c.nev == len(c.events) {
+			viol = append(viol, fmt.Sprintf("%d applied entries are not operations of any client", c.alien))
 		}
 		for _, id := range c.log {
 			if o := ops[id]; o != nil && o.refused {
-				st.Violation(c.id, fmt.Sprintf("operation %d was refused but is in the applied log", id))
+				viol = append(viol, fmt.Sprintf("operation %d was refused but is in the applied log", id))
 				break
 			}
 		}
 		if wf {
 			msg, exhausted := c.searchLinearizable(ops, invOrder, budget)
 			if msg != "" {
-				st.Violation(c.id, "history not linearizable: "+msg)
+				viol = append(viol, "history not linearizable: "+msg)
 			}
 			if exhausted {
 				st.Count("search_budget_exhausted")
 			}
 			if why != "" && msg == "" {
-				st.Violation(c.id, "the log order is not a linearization of the history (witness check failed at: "+why+")")
+				viol = append(viol, "the log order is not a linearization of the history (witness check failed at: "+why+")")
 			}
 		} else {
-			st.Violation(c.id, "recorded history is not well formed")
+			// the recorder cannot produce this; it only arises from hand-written
+			// cases and while the shrinker removes events: both sides say LIN bad
+			st.Count("ill_formed")
+			viol = nil
+		}
+		if c.expBad {
+			// hand-written negative case of the corpus: it must be rejected
+			st.Count("negative_cases")
+			if why == "" || (wf && len(viol) == 0) {
+				st.Violation(c.id, "a history that violates the property was accepted by the checkers")
+			}
+		} else {
+			for _, v := range viol {
+				st.Violation(c.id, v)
+			}
 		}
 
 		// ---- coverage ----
